@@ -5,13 +5,16 @@ from a local processor (circuit, heralds anywhere, ports, post-selection, noise,
 then a sequence of public-API calls (setters, `prepare_job_payload`, `Sampler`, iterations, job
 creation, `execute_async`) on that one long-lived processor — including changes of its circuit between
 two requests: a parameter value set in place (`P.set_value`), the circuit replaced through
-`RemoteProcessor.set_circuit` or `rp.experiment.set_circuit`, a component appended with `add`.  The real code runs against a fake RPC handler object (no network, no
-HTTP layer); every payload (returned by `prepare_job_payload` or received by `create_job`) is sent
-through JSON, deserialised with `perceval.serialization.deserialize` and compared
+`RemoteProcessor.set_circuit` or `rp.experiment.set_circuit`, a component appended with `add`.  The real code runs with the REAL `RPCHandler` over a scripted transport installed
+under `requests` (`HTTPAdapter.send`): every HTTP request the client emits is seen with its method, URL, headers, body
+bytes, time-out and proxies, and how often.  Every payload (returned by `prepare_job_payload` or POSTed by `create_job`)
+is sent through JSON, deserialised with `perceval.serialization.deserialize` and compared
 
-The fake handler also plays the network: each execution (`execute_async`, `execute_sync`, `__call__`) has its
-creation request answered, delivered with the answer lost, not delivered or refused, and counts the requests that
-reached the platform — one execution must never create two remote jobs.  Iteration lists include scans and iterations
+The transport plays the network and the platform: each execution (`execute_async`, `execute_sync`, `__call__`) has its
+creation request answered 200 with a job id, delivered with the answer lost, not delivered, refused with an error status
+(JSON error or not), accepted with a 2xx status or a body `create_job` cannot use — one execution must never create two
+remote jobs, what is POSTed must be the job's request (canonical JSON), authenticated with the user's token, to the URL
+the model computes (`Model/C16Rpc.lean`).  Iteration lists include scans and iterations
 that must be refused (photon window, size, unknown parameter) next to every other key; what the executed job carries is
 judged by the direct oracle.
 
@@ -51,27 +54,64 @@ REFUSALS = ("ValueError", "RuntimeError", "AssertionError", "TypeError")
 
 
 # ------------------------------------------------------------------------------------------------
-# fake RPC handler (duck-typed `RPCHandler`): records what `create_job` receives, after a JSON round trip; the
-# scenario scripts what the network does to each creation request
+# the network under `requests`: the REAL `RPCHandler` runs, `requests.adapters.HTTPAdapter.send` is replaced, so every
+# HTTP request the client emits (method, URL, headers, body bytes, time-out, proxies) is seen, and how often
 # ------------------------------------------------------------------------------------------------
-# what the network does to ONE job-creation request (scripted per execution by the scenario):
-#   ok              delivered, the platform answers with the job id
-#   lost            delivered — the job exists platform side — but the answer never comes back (read time-out)
-#   unreachable     not delivered (name resolution / connection refused)
-#   connect-timeout not delivered (connection time-out)
-#   refused         the platform answers with an HTTP error: no job created
-NETS = ("ok", "lost", "unreachable", "connect-timeout", "refused")
-LEAN_NET = {"ok": "ok", "lost": "lost", "unreachable": "down", "connect-timeout": "down", "refused": "down"}
+# what the transport does to ONE job-creation request (scripted per execution by the scenario) -> the model's `Wire`:
+NETS = {
+    # delivered, the platform answers 200 with the job id
+    "ok": {"code": 200, "reply": {"job_id": "job", "error": None}},
+    # delivered — the platform may hold the job — but the answer never comes back (read time-out)
+    "lost": "read_timeout",
+    # not delivered (name resolution / connection refused; connection time-out)
+    "unreachable": "connection_error",
+    "connect-timeout": "connect_timeout",
+    # the platform answers with an error status: no job created
+    "refused": {"code": 400, "reply": {"job_id": None, "error": "Bad request"}},
+    "unauthorized": {"code": 401, "reply": {"job_id": None, "error": "Invalid token"}},
+    "refused-noerr": {"code": 500, "reply": {"job_id": None, "error": None}},
+    "refused-html": {"code": 502, "reply": "not_json"},
+    "refused-list": {"code": 422, "reply": "list"},
+    # the platform took the request (2xx) but `create_job` cannot use the answer: the call raises, the job exists
+    "created-201": {"code": 201, "reply": {"job_id": "job", "error": None}},
+    "ok-nojobid": {"code": 200, "reply": {"job_id": None, "error": None}},
+    "ok-html": {"code": 200, "reply": "not_json"},
+    "ok-list": {"code": 200, "reply": "list"},
+}
+NET_FAILURES = [k for k in NETS if k != "ok"]
+
+HANDLER_NAMES = ["sim:verif", "sim:verif", "qpu:altair", "sim verif/2", "sim:çlifford+x", "a_b.c-d~e"]
+HANDLER_URLS = ["https://verif.invalid", "https://verif.invalid", "https://verif.invalid/",
+                "http://localhost:8080/base", "https://verif.invalid/some/prefix/"]
+HANDLER_TOKENS = ["tok-abc", "_T_0123456789abcdef", "x", None, ""]
+HANDLER_PROXIES = [None, None, {}, {"https": "http://proxy.invalid:3128"},
+                   {"https": "http://proxy.invalid:3128", "http": "http://proxy.invalid:3129"}]
+DEFAULT_HANDLER = {"name": "sim:verif", "url": "https://verif.invalid", "token": "none", "proxies": None,
+                   "timeout": 10, "via": "object"}
+
+_NET = [None]          # the transport of the session that is running (one at a time in this process)
+_PATCHED = [False]
 
 
-class FakeHandler:
-    """Duck-typed `RPCHandler`.  `log` = the job-creation requests that reached the platform (every one of them
-    is a remote job, whether or not the client got the answer), `attempts` = calls of `create_job`."""
-    name = "sim:verif"
-    url = "https://verif.invalid"
-    proxies = None
-    headers = {}
-    token = "none"
+def _adapter_send(adapter, request, **kw):
+    net = _NET[0]
+    if net is None:
+        import requests
+        raise requests.exceptions.ConnectionError("no network in the verification harness")
+    return net.send(request, kw)
+
+
+def install_transport():
+    if not _PATCHED[0]:
+        import requests.adapters
+        requests.adapters.HTTPAdapter.send = _adapter_send
+        _PATCHED[0] = True
+
+
+class FakeNet:
+    """The transport under `requests`.  `traffic` = every HTTP request emitted, `posts` = the job-creation requests
+    among them, `log` = the bodies of those the platform took (2xx) or may have taken (answer never read): every one
+    of them is a remote job, whether or not the client got an id; `attempts` = number of job-creation POSTs."""
 
     def __init__(self, pf):
         cons = {}
@@ -82,43 +122,96 @@ class FakeHandler:
         specs = {"available_commands": list(pf["commands"])}
         if cons or pf.get("empty_constraints"):
             specs["constraints"] = cons
+        if pf.get("threshold_only"):
+            specs["detector"] = "threshold"
         self._details = {"specs": specs, "type": pf.get("type", "simulator"), "perfs": {}, "status": "available"}
+        self.traffic = []
+        self.posts = []
         self.log = []
         self.attempts = 0
-        self.script = []          # behaviour of the next creation requests, then "ok"
-        self.raised = []          # the exception objects this handler raised
-
-    def fetch_platform_details(self):
-        return copy.deepcopy(self._details)
+        self.script = []          # behaviour of the next creation requests (names of NETS), then "ok"
+        self.raised = []          # the exception objects the transport raised
 
     def _raise(self, exc):
         self.raised.append(exc)
         raise exc
 
-    def create_job(self, payload):
+    def _answer(self, request, code, body):
         import requests
-        self.attempts += 1
-        net = self.script.pop(0) if self.script else "ok"
-        if net == "unreachable":
-            self._raise(requests.exceptions.ConnectionError("Name or service not known"))
-        if net == "connect-timeout":
-            self._raise(requests.exceptions.ConnectTimeout("connect timeout=10"))
-        if net == "refused":
-            self._raise(requests.exceptions.HTTPError("Bad request"))
-        self.log.append(json.loads(json.dumps(payload)))      # from here on the job exists platform side
-        if net == "lost":
-            self._raise(requests.exceptions.ReadTimeout("read timeout=10"))
-        return f"job-{len(self.log)}"
+        r = requests.Response()
+        r.status_code = code
+        r.url = request.url
+        r.request = request
+        r.encoding = "utf-8"
+        r.reason = "scripted"
+        r.headers["Content-Type"] = "application/json"
+        r._content = body if isinstance(body, bytes) else json.dumps(body).encode()
+        return r
 
-    def get_job_status(self, job_id):
-        return {"status": "completed", "progress": 1., "progress_message": "", "status_message": "",
-                "creation_datetime": 0., "start_time": 0., "duration": 0}
+    def send(self, request, kw):
+        import requests
+        from urllib.parse import urlsplit
+        path = urlsplit(request.url).path
+        body = request.body
+        if isinstance(body, str):
+            body = body.encode()
+        rec = {"verb": request.method, "url": request.url, "headers": dict(request.headers), "body": body,
+               "timeout": kw.get("timeout"), "proxies": dict(kw.get("proxies") or {}), "kind": "other"}
+        self.traffic.append(rec)
+        if request.method == "GET" and "/api/platform/" in path:
+            rec["kind"] = "details"
+            return self._answer(request, 200, self._details)
+        if request.method == "POST" and path.rstrip("/").endswith("/api/job"):
+            rec["kind"] = "create"
+            self.attempts += 1
+            self.posts.append(rec)
+            name = self.script.pop(0) if self.script else "ok"
+            wire = NETS[name]
+            rec["net"] = name
+            if wire == "connection_error":
+                self._raise(requests.exceptions.ConnectionError("Name or service not known"))
+            if wire == "connect_timeout":
+                self._raise(requests.exceptions.ConnectTimeout("connect timeout=10"))
+            accepted = wire == "read_timeout" or 200 <= wire["code"] < 300
+            if accepted:
+                try:
+                    self.log.append(json.loads(body))      # from here on the job exists platform side
+                except Exception:
+                    self.log.append({"unreadable": repr(body)[:200]})
+            if wire == "read_timeout":
+                self._raise(requests.exceptions.ReadTimeout("read timeout=10"))
+            rep = wire["reply"]
+            if rep == "not_json":
+                return self._answer(request, wire["code"], b"<html>Bad gateway</html>")
+            if rep == "list":
+                return self._answer(request, wire["code"], ["unexpected"])
+            doc = {}
+            if rep["job_id"] is not None:
+                doc["job_id"] = f"{rep['job_id']}-{len(self.log)}"
+            if rep["error"] is not None:
+                doc["error"] = rep["error"]
+            return self._answer(request, wire["code"], doc)
+        if request.method == "GET" and "/api/job/status/" in path:
+            rec["kind"] = "status"
+            return self._answer(request, 200, {"status": "completed", "progress": 1., "progress_message": "",
+                                               "status_message": "", "creation_datetime": 0., "start_time": 0.,
+                                               "duration": 0})
+        if request.method == "GET" and "/api/job/result/" in path:
+            rec["kind"] = "result"
+            return self._answer(request, 200, {"results": json.dumps(
+                {"results": ":PCVL:BSDistribution:{|1,0>=1}", "physical_perf": 1})})
+        return self._answer(request, 404, {"error": "no such endpoint"})
 
-    def get_job_results(self, job_id):
-        return {"results": json.dumps({"results": ":PCVL:BSDistribution:{|1,0>=1}", "physical_perf": 1})}
 
-    def cancel_job(self, job_id):
-        pass
+def lean_wire(name, n_log):
+    """the model's `Wire` of a scripted behaviour (the job id the fake platform hands out is `<job_id>-<n>`)"""
+    wire = NETS[name]
+    if isinstance(wire, str):
+        return wire
+    rep = wire["reply"]
+    if isinstance(rep, dict) and rep["job_id"] is not None:
+        rep = dict(rep, job_id=f"{rep['job_id']}-{n_log + 1}")
+    return {"code": wire["code"], "reply": rep}
 
 
 _QUIET = False
@@ -208,6 +301,61 @@ def relabel(u, perm):
     return u[np.ix_(idx, idx)]
 
 
+def post_conds(ps):
+    """the mode sets of the conditions of a PostSelect (its printed form lists them in brackets)"""
+    import re
+    return [[int(x) for x in grp.split(",") if x.strip()] for grp in re.findall(r"\[([\d,\s]*)\]", str(ps))]
+
+
+def user_mapping(mp, w, ports):
+    """What the user's mapping of `add(mapping, component)` means, from the documentation of `Processor.add`:
+    {processor mode: component input} for an int offset, a list of processor modes or a dict (int keys or output
+    port names, int / list values) -> dict, or None when the mapping is not a legal one (the real call must raise)."""
+    if "offset" in mp:
+        return {mp["offset"] + i: i for i in range(w)}
+    if "list" in mp:
+        keys = mp["list"]
+        if len(keys) != w or len(set(keys)) != w:
+            return None
+        return {k: i for i, k in enumerate(keys)}
+    out = {}
+    for k, v in mp["dict"]:
+        if isinstance(k, str):
+            if k not in ports:
+                return None
+            ks = list(range(ports[k][0], ports[k][0] + ports[k][1]))
+        else:
+            ks = [k]
+        vs = v if isinstance(v, list) else [v]
+        if len(ks) != len(vs) or any(not isinstance(x, int) for x in vs):
+            return None
+        for a, b in zip(ks, vs):
+            if a in out:
+                return None
+            out[a] = b
+    if len(out) != w or sorted(out.values()) != list(range(w)):
+        return None
+    return out
+
+
+def route_matrix(mapping, n):
+    """permutation sending the light of processor mode k to mode min+v for every k: v of the mapping, the other modes
+    between the smallest and the largest key behind the component's inputs in increasing order, all others fixed"""
+    mn, mx = min(mapping), max(mapping)
+    full = dict(mapping)
+    nxt = max(full.values()) + 1
+    for k in range(mn, mx + 1):
+        if k not in full:
+            full[k] = nxt
+            nxt += 1
+    pm = np.eye(n, dtype=complex)
+    for k, v in full.items():
+        pm[:, k] = 0
+    for k, v in full.items():
+        pm[mn + v, k] = 1
+    return pm, mn, any(full[k] != k - mn for k in full)
+
+
 def test_states(size, rng_seed=7):
     if 3 ** size <= 729:
         return [list(t) for t in itertools.product(range(3), repeat=size)]
@@ -240,7 +388,7 @@ def pf_text(pf):
 
 
 def pv_ok(x):
-    return x is None or (isinstance(x, int) and not isinstance(x, bool)) or isinstance(x, str)
+    return x is None or isinstance(x, (int, bool, str))
 
 
 # ------------------------------------------------------------------------------------------------
@@ -270,6 +418,8 @@ def gen_pf(rng):
             cmds.insert(rng.randint(0, len(cmds)), "my_command")
     pf["commands"] = cmds
     pf["type"] = "physical" if rng.random() < 0.2 else "simulator"
+    if rng.random() < 0.12:
+        pf["threshold_only"] = True
     return pf
 
 
@@ -476,6 +626,10 @@ def gen_ops(rng, tr, n_ops):
                 heralds.append(k)
                 st["m"] -= 1
                 return {"op": "add_herald", "mode": k, "expected": rng.randint(0, 1)}
+        if 0.87 <= r < 0.91:
+            return params_op()
+        if 0.91 <= r < 0.94 and tr["remote_built"] and st["size"] >= 1:
+            return port_op()
         return prepare_op()
 
     def herald_op():
@@ -501,14 +655,133 @@ def gen_ops(rng, tr, n_ops):
             if m == size:
                 tr["sym"] = sym_names(spec)
             return {"op": "set_circuit", "via": rng.choice(["rp", "exp"]), "circ": spec}
-        w = rng.choice([1, 2, 2])
-        cand = [k for k in range(size - w + 1) if all(j not in heralds for j in range(k, k + w))]
-        if not cand:
-            w = 1
-            cand = [k for k in range(size) if k not in heralds]
-        spec = gen_circ(rng, w, prefix=f"a{st['nsym']}q", max_leaves=2, p_sym=0.3)
+        free = [k for k in range(size) if k not in heralds]
+        if r < 0.9 or not free:
+            w = rng.choice([1, 2, 2])
+            cand = [k for k in range(size - w + 1) if all(j not in heralds for j in range(k, k + w))]
+            if not cand:
+                w = 1
+                cand = free or [0]
+            k = rng.choice(cand)
+            if rng.random() < 0.12:
+                k = rng.randint(-1, size)            # anywhere: on a herald mode, beyond the end, negative
+            spec = gen_circ(rng, w, prefix=f"a{st['nsym']}q", max_leaves=2, p_sym=0.3)
+            tr["sym"] = tr["sym"] + sym_names(spec)
+            return {"op": "add_comp", "k": k, "circ": spec}
+        # a list / dict mapping (processor mode -> component input), possibly through an output port name
+        ports = st.get("ports", [])
+        form = rng.random()
+        if form >= 0.8 and ports:
+            name, start, psize = rng.choice(ports)
+            w = psize
+            vals = list(range(psize))
+            rng.shuffle(vals)
+            f2 = rng.random()
+            if f2 < 0.08:
+                name = "zz"                           # no such port
+            elif f2 < 0.16:
+                vals = vals[:-1] if len(vals) > 1 else vals + [1]      # imbalanced
+            elif f2 < 0.24 and psize == 1:
+                vals = 0                              # int value for a one-mode port
+            elif f2 < 0.3 and psize > 1:
+                vals = 0                              # int value for a two-mode port: refused
+            mp = {"dict": [[name, vals]]}
+        else:
+            w = min(rng.choice([1, 2, 2, 3]), len(free))
+            keys = rng.sample(free, w)
+            flaw = rng.random()
+            if flaw < 0.07 and heralds:
+                keys[rng.randrange(w)] = rng.choice(heralds)
+            elif flaw < 0.11:
+                keys[rng.randrange(w)] = rng.choice([-1, size, size + 1])
+            elif flaw < 0.15 and w > 1:
+                keys[1] = keys[0]
+            elif flaw < 0.19:
+                keys = keys[:-1] if (w > 1 and rng.random() < 0.5) else keys + [rng.choice(free)]
+            if form < 0.5:
+                mp = {"list": keys}
+            else:
+                vals = list(range(len(keys)))
+                rng.shuffle(vals)
+                f2 = rng.random()
+                if f2 < 0.06:
+                    vals[0] = len(keys)               # not an input of the component: PERM refuses the vector
+                elif f2 < 0.1 and len(vals) > 1:
+                    vals[1] = vals[0]
+                elif f2 < 0.13:
+                    vals[0] = "a"
+                elif f2 < 0.2:
+                    vals[0] = [vals[0]]               # a one-element list for an int key
+                mp = {"dict": [[k, v] for k, v in zip(keys, vals)]}
+        spec = gen_circ(rng, max(1, w), prefix=f"a{st['nsym']}q", max_leaves=2, p_sym=0.3)
         tr["sym"] = tr["sym"] + sym_names(spec)
-        return {"op": "add_comp", "k": rng.choice(cand), "circ": spec}
+        return {"op": "add_mapped", "map": mp, "circ": spec}
+
+    def port_op():
+        size, heralds = st["size"], st["heralds"]
+        taken = set(heralds)
+        for _, start, psize in st.get("ports", []):
+            taken |= set(range(start, start + psize))
+        psize = rng.choice([1, 2, 2])
+        cand = [k for k in range(size - psize + 1) if all(j not in taken for j in range(k, k + psize))]
+        if not cand or rng.random() < 0.12:
+            k = rng.randrange(max(1, size - psize + 1))      # possibly over a herald / another port: refused
+        else:
+            k = rng.choice(cand)
+            st.setdefault("ports", []).append(("q%d" % k, k, psize))
+        return {"op": "add_port", "mode": k, "name": "q%d" % k, "size": psize}
+
+    def params_op():
+        r = rng.random()
+        if r < 0.45:
+            stale_all()
+            d = [[rng.choice(["thresholded", "foo", "mitigation", "bar", "min_detected_photons"]),
+                  rng.choice([None, 0, 1, 7, "on", True, False])] for _ in range(rng.randint(1, 3))]
+            if rng.random() < 0.2:
+                d.insert(rng.randint(0, len(d)), [None, 1])        # a key that is not a string
+            return {"op": "set_params", "d": d}
+        stale_all()
+        return {"op": "thresholded", "v": rng.random() < 0.6}
+
+    def clear_ops():
+        """`clear_input_and_circuit(new_m)`, then the user builds another circuit on the same processor (same
+        noise, filter and parameters) and goes on"""
+        out = []
+        new_m = rng.choice([None, None, 1, 2, 3, 4, 0, -1])
+        out.append({"op": "clear_all", "new_m": new_m})
+        st.update(heralds=[], inp=False, ports=[])
+        tr["remote_built"] = True
+        tr["sym"] = []
+        st["nsym"] += 1
+        if new_m is not None and new_m >= 1:
+            n = new_m
+            if rng.random() < 0.5:
+                spec = gen_circ(rng, n, prefix=f"c{st['nsym']}q", p_sym=0.4)
+                out.append({"op": "set_circuit", "via": rng.choice(["rp", "exp"]), "circ": spec})
+                tr["sym"] = sym_names(spec)
+        else:
+            if rng.random() < 0.15:
+                out.append(dict(prepare_op(), circuitless=False))        # nothing to send: refused
+            if rng.random() < 0.5:
+                n = rng.randint(1, 5)
+                spec = gen_circ(rng, n, prefix=f"c{st['nsym']}q", p_sym=0.4)
+                out.append({"op": "set_circuit", "via": rng.choice(["rp", "exp"]), "circ": spec})
+            else:
+                w, k = rng.choice([1, 2, 2, 3]), rng.choice([0, 0, 1, 2])
+                n = w + k
+                spec = gen_circ(rng, w, prefix=f"c{st['nsym']}q", max_leaves=2, p_sym=0.4)
+                if rng.random() < 0.3:
+                    keys = rng.sample(range(n), w)
+                    n = max(keys) + 1
+                    out.append({"op": "add_mapped", "map": {"list": keys}, "circ": spec})
+                else:
+                    out.append({"op": "add_comp", "k": k, "circ": spec})
+            tr["sym"] = sym_names(spec)
+        st.update(m=n, size=n)
+        if rng.random() < 0.8:
+            out.append({"op": "with_input", "s": gen_state(rng, n, 3)})
+            st["inp"] = True
+        return out
 
     def prepare_op():
         kw = []
@@ -683,8 +956,7 @@ def gen_ops(rng, tr, n_ops):
         if rng.random() < 0.03:
             kw.append(["job_context", 1])
         # what the network does to the creation request, and the entry point used for the execution
-        net = "ok" if rng.random() < 0.78 else rng.choice(["lost", "lost", "lost", "unreachable", "connect-timeout",
-                                                              "refused"])
+        net = "ok" if rng.random() < 0.67 else rng.choice(["lost", "lost"] + NET_FAILURES)
         how = "async" if rng.random() < 0.8 else rng.choice(["sync", "call"])
         return {"op": "execute", "job": j, "args": args, "kw": kw, "net": net, "how": how}
 
@@ -741,6 +1013,8 @@ def gen_ops(rng, tr, n_ops):
         ops.append({"op": "filter", "n": rng.choice([0, 0, 1, 2, 3])})
     for _ in range(n_cfg):
         ops.append(config_op() if rng.random() < 0.9 else circuit_op())
+    if rng.random() < 0.08:
+        ops.extend(clear_ops())
     if tr["remote_built"] and st["m"] > 1 and rng.random() < 0.12:
         # an input state, then a herald (expecting what the state has there, or not): the stored state lags behind
         # the heralds and is transmitted as it is; the photon window decides on n_user + n_heralds
@@ -781,7 +1055,10 @@ def gen_ops(rng, tr, n_ops):
             elif r < 0.28:
                 ops.append(config_op())
             elif r < 0.36:
-                ops.append(circuit_op())
+                if rng.random() < 0.12:
+                    ops.extend(clear_ops())
+                else:
+                    ops.append(circuit_op())
             elif r < 0.40:
                 ops.append(sampler_op())
             elif r < 0.52:
@@ -819,12 +1096,25 @@ def gen_ops(rng, tr, n_ops):
     return ops
 
 
+def gen_handler(rng):
+    """the `RPCHandler` of the session: built by the user and injected (`via` = object), or built by
+    `RemoteProcessor.__init__` from name / token / url / proxies (`via` = kwargs: needs a token and proxies)"""
+    hs = {"name": rng.choice(HANDLER_NAMES), "url": rng.choice(HANDLER_URLS), "token": rng.choice(HANDLER_TOKENS),
+          "proxies": copy.deepcopy(rng.choice(HANDLER_PROXIES)), "timeout": 10, "via": "object"}
+    if hs["token"] and hs["proxies"] is not None and rng.random() < 0.5:
+        hs["via"] = "kwargs"
+    elif rng.random() < 0.15:
+        hs["timeout"] = rng.choice([3, 30])
+    return hs
+
+
 def gen_scenario(rng, max_m, max_ops):
     pf = gen_pf(rng)
     tr = {"pf": pf}
     start = gen_start(rng, tr, max_m)
     ops = gen_ops(rng, tr, rng.randint(3, max_ops))
-    return {"pf": pf, "start": start, "ops": ops}
+    # drawn last: the scenarios of a seed are the ones of the earlier rounds, each with a handler
+    return {"pf": pf, "start": start, "ops": ops, "handler": gen_handler(rng)}
 
 
 # ------------------------------------------------------------------------------------------------
@@ -840,7 +1130,14 @@ class Session:
         quiet()
         self.pcvl = pcvl
         self.scen = scen
-        self.h = FakeHandler(scen["pf"])
+        install_transport()
+        self.net = FakeNet(scen["pf"])
+        _NET[0] = self.net
+        self.hs = dict(DEFAULT_HANDLER, **scen.get("handler", {}))
+        self.h = None              # the RPCHandler object (the user's, or the one RemoteProcessor builds)
+        self.ports = {}            # name -> (first mode, size) of the ports the user put on the remote processor
+        self.http = []             # per op: the platform-details / job-creation requests emitted while it ran
+        self.n_traffic = 0
         self.noises = [pcvl.NoiseModel()]
         self.posts = []            # id -> PostSelect object given by the user
         self.circs = []            # id -> numeric matrix of the user's circuit / local processor
@@ -873,6 +1170,30 @@ class Session:
         self.intent = {"filter": None, "noise": None, "post": None, "input": None, "input_fresh": False,
                        "heralds": {}, "circ": None, "converted": False, "local_heralds": {}, "max_shots": None,
                        "sampler_its": [], "sampler_its_bad": []}
+
+    # -- the handler -----------------------------------------------------------------------------
+    def handler_kwargs(self):
+        """keyword arguments giving a RemoteProcessor its handler: the user's own `RPCHandler` object, or the four
+        values `RemoteProcessor.__init__` builds one from"""
+        hs = self.hs
+        if hs["via"] == "kwargs":
+            self.flags.add("handler-built-by-processor")
+            return {"name": hs["name"], "token": hs["token"], "url": hs["url"], "proxies": copy.deepcopy(hs["proxies"])}
+        from perceval.runtime.rpc_handler import RPCHandler
+        h = RPCHandler(hs["name"], hs["url"], hs["token"], copy.deepcopy(hs["proxies"]))
+        if hs["timeout"] != 10:
+            h.request_timeout = hs["timeout"]
+            self.flags.add("handler-timeout-set")
+        self.flags.add("handler-injected")
+        return {"rpc_handler": h}
+
+    def lean_handler(self):
+        hs = self.hs
+        pid = None if hs["proxies"] is None else HANDLER_PROXIES.index(hs["proxies"]) if hs["proxies"] in HANDLER_PROXIES \
+            else 99
+        if hs["via"] == "kwargs" and pid is None:
+            pid = 99
+        return {"name": hs["name"], "url": hs["url"], "token": hs["token"], "proxies": pid, "timeout": hs["timeout"]}
 
     # -- ids -------------------------------------------------------------------------------------
     def noise_id(self, spec):
@@ -972,8 +1293,8 @@ class Session:
             self.flags.add("remote-built")
 
             def do():
-                rp = pcvl.RemoteProcessor(rpc_handler=self.h, m=st["m"],
-                                          noise=None if nid is None else self.noises[nid])
+                rp = pcvl.RemoteProcessor(m=st["m"], noise=None if nid is None else self.noises[nid],
+                                          **self.handler_kwargs())
                 if st["via_set"]:
                     rp.set_circuit(circ)
                 else:
@@ -1015,6 +1336,8 @@ class Session:
                  "cparams": list(p.get_circuit_parameters().keys())}
         self.leaf_reg.append({"k": p.circuit_size, "local": True})
         lop = {"op": "convert", "p": state, "pcomps": [["leaf", 0, len(self.leaf_reg) - 1, p.circuit_size]]}
+        if post is not None:
+            lop["conds"] = post_conds(post)
         self.flags.add("convert")
         if heralds:
             self.flags.add("convert-heralds")
@@ -1031,7 +1354,7 @@ class Session:
                            local_heralds=dict(p.heralds))
 
         def do():
-            self.rp = pcvl.RemoteProcessor.from_local_processor(p, rpc_handler=self.h)
+            self.rp = pcvl.RemoteProcessor.from_local_processor(p, **self.handler_kwargs())
             return {"done": True}
         self.run_op(lop, do)
         if self.rp is not None:
@@ -1070,7 +1393,9 @@ class Session:
         """Matrix of the user's circuit described by the recipe `cs`, rebuilt from the specs (fresh objects): in the
         local processor's labelling when `cs['direct']` is false, in the remote processor's own labelling otherwise."""
         kind, spec = cs["base"]
-        if kind == "remote":
+        if kind == "empty":
+            u = np.eye(cs["size"], dtype=complex)       # after clear_input_and_circuit: nothing but the modes
+        elif kind == "remote":
             u = numeric_unitary(build_circuit(spec, cs["values"]))
         else:
             names = set(sym_names(spec["circ"])) if spec.get("base") == "circuit" else set()
@@ -1084,11 +1409,13 @@ class Session:
                 u = self.u_local0
             if cs["direct"]:
                 u = relabel(u, self.conv_perm)
-        for k, spec in cs["extra"]:
+        for mapping, spec in cs["extra"]:
+            # `mapping`: {processor mode: component input} — route, then the component on the first modes of the span
+            pm, mn, _ = route_matrix(mapping, u.shape[0])
             w = spec["m"]
             e = np.eye(u.shape[0], dtype=complex)
-            e[k:k + w, k:k + w] = numeric_unitary(build_circuit(spec, cs["values"]))
-            u = e @ u
+            e[mn:mn + w, mn:mn + w] = numeric_unitary(build_circuit(spec, cs["values"]))
+            u = e @ pm @ u
         return u
 
     def build_local(self, st, values=None, keep="user"):
@@ -1137,11 +1464,53 @@ class Session:
         self.lean_ops.append(lop)
         self.outs.append(out)
         self.states.append(self.digest())
-        # direct oracle: nothing reaches the handler except through a successful execute
-        if len(self.h.log) != self.n_sent:
-            self.oracle_failures.append(("create-job-count", f"handler received {len(self.h.log)} create_job calls after "
-                                         f"{self.n_sent} successful execute_async calls (last op {lop['op']})"))
-            self.n_sent = len(self.h.log)
+        # the HTTP requests this call made the client emit
+        new = self.net.traffic[self.n_traffic:]
+        self.n_traffic = len(self.net.traffic)
+        self.http.append([r for r in new if r["kind"] in ("details", "create")])
+        for r in new:
+            if r["kind"] == "other" or (r["kind"] in ("status", "result") and lop["op"] != "execute"):
+                self.oracle_failures.append(("unexpected-http-request", f"{lop['op']} made the client emit "
+                                             f"{r['verb']} {r['url']}"))
+            self.check_request(r)
+        # direct oracle: nothing reaches the platform except through an execution
+        if len(self.net.log) != self.n_sent:
+            self.oracle_failures.append(("create-job-count", f"the platform received {len(self.net.log)} job-creation "
+                                         f"requests after {self.n_sent} executions that emitted one (last op {lop['op']})"))
+            self.n_sent = len(self.net.log)
+
+    def check_request(self, r):
+        """direct oracle on ONE emitted HTTP request, from the scenario's own handler values: it is authenticated
+        with the user's token and a job creation is a JSON document naming the user's platform"""
+        hs = self.hs
+        if hs["token"] and r["headers"].get("Authorization") != f"Bearer {hs['token']}":
+            self.fail("request-not-authenticated", f"{r['verb']} {r['url']} carries Authorization "
+                                                   f"{r['headers'].get('Authorization')!r}, the user's token is "
+                                                   f"{hs['token']!r}")
+        for k, v in (hs["proxies"] or {}).items():
+            if r["proxies"].get(k) != v:
+                self.fail("request-proxies", f"{r['verb']} {r['url']} goes through proxies {r['proxies']!r}, the user "
+                                             f"gave {hs['proxies']!r}")
+        if r["kind"] != "create":
+            return
+        self.flags.add("post-checked")
+        if not str(r["headers"].get("Content-Type", "")).startswith("application/json"):
+            self.fail("post-not-json", f"job creation posted with Content-Type {r['headers'].get('Content-Type')!r}")
+        try:
+            doc = json.loads(r["body"])
+        except Exception as e:
+            return self.fail("post-not-json", f"the body of the job creation is not JSON: {type(e).__name__}: {e}")
+        if not isinstance(doc, dict) or doc.get("platform_name") != hs["name"]:
+            self.fail("post-wrong-platform", f"job creation names platform "
+                                             f"{doc.get('platform_name') if isinstance(doc, dict) else doc!r}, the "
+                                             f"user's handler is for {hs['name']!r}")
+        try:
+            from perceval.utils import PMetadata
+            if doc.get("pcvl_version") != PMetadata.short_version():
+                self.fail("post-wrong-version", f"pcvl_version {doc.get('pcvl_version')!r} != "
+                                                f"{PMetadata.short_version()!r}")
+        except ImportError:
+            pass
 
     def digest(self):
         rp = self.rp
@@ -1220,7 +1589,7 @@ class Session:
                     it["post"] = (self.posts[pid], "remote")
                 self.pending.add("post")
                 return {"done": True}
-            self.run_op({"op": k, "p": pid}, do)
+            self.run_op({"op": k, "p": pid, "conds": [] if pid is None else post_conds(self.posts[pid])}, do)
         elif k == "noise":
             nid = self.noise_id(op["n"])
 
@@ -1246,11 +1615,12 @@ class Session:
                 self.touch_jobs("clear_params")
                 return {"done": True}
             self.run_op({"op": k}, do)
-        elif k in ("retune", "set_circuit", "add_comp"):
+        elif k in ("retune", "set_circuit", "add_comp", "add_mapped"):
             if self.cs is None or (it["converted"] and self.conv_perm is None):
                 return False
             cs = self.cs
             keep = {}
+            empty = rp.circuit_size == 0
             if k == "retune":
                 params = rp.get_circuit_parameters()
                 if op["name"] not in params:
@@ -1280,19 +1650,39 @@ class Session:
                         rp.experiment.set_circuit(circ)
             else:
                 spec = op["circ"]
-                w, k0 = spec["m"], op["k"]
-                if rp.post_select_fn is not None or k0 + w > rp.circuit_size or \
-                        any(j in rp.heralds for j in range(k0, k0 + w)):
-                    return False
+                w = spec["m"]
+                mp = {"offset": op["k"]} if k == "add_comp" else op["map"]
                 circ = build_circuit(spec, keep=keep)
-                cand = dict(cs, extra=cs["extra"] + [(k0, spec)], direct=True)
-                lop = {"op": k, "k": k0, "c": self.reg_circuit(spec, None)}
-                kind = "add-comp"
+                # what the mapping means (documentation of `add`), from the user's own values
+                mapping = user_mapping(mp, w, self.ports)
+                size = rp.circuit_size
+                if empty and mapping is not None and min(mapping) >= 0:
+                    size = max(mapping) + 1           # a processor of 0 modes: the first component decides
+                legal = mapping is not None and all(0 <= kk < size and kk not in rp.heralds for kk in mapping)
+                if legal:
+                    cand = dict(cs, extra=cs["extra"] + [(mapping, spec)], direct=True)
+                    if empty:
+                        cand["size"] = size
+                else:
+                    cand = None
+                if "dict" in mp:
+                    real_map = {}
+                    for a2, b2 in mp["dict"]:
+                        real_map[a2] = b2
+                    lmap = {"dict": [[a2, b2] for a2, b2 in mp["dict"]]}
+                elif "list" in mp:
+                    real_map, lmap = list(mp["list"]), {"list": list(mp["list"])}
+                else:
+                    real_map, lmap = mp["offset"], {"offset": mp["offset"]}
+                lop = {"op": "add_mapped", "map": lmap, "c": self.reg_circuit(spec, None)}
+                kind = "add-comp" if k == "add_comp" else "add-mapped"
 
                 def real():
-                    rp.add(k0, circ)
+                    rp.add(real_map, circ)
             if k == "set_circuit" and spec["m"] != rp.circuit_size:
                 u = numeric_unitary(circ)           # refused by the size check: only the symbol's number matters
+            elif cand is None:
+                u = numeric_unitary(circ)           # the call must raise: only the symbol's number matters
             else:
                 u = self.circuit_matrix(cand)
             self.circs.append(u)
@@ -1300,9 +1690,17 @@ class Session:
                 lop["c"]["sym"] = len(self.circs) - 1
             else:
                 lop["circ"] = len(self.circs) - 1
+            had_post = rp.post_select_fn is not None
 
             def do():
                 real()
+                if cand is None:
+                    # direct oracle: a mapping that names a herald mode, a mode outside the circuit, the same mode
+                    # twice, a port that does not exist … must be refused
+                    self.fail("add-illegal-mapping-accepted",
+                              f"add({real_map!r}, <{spec['m']}-mode circuit>) was accepted on a processor of "
+                              f"{rp.circuit_size} modes with heralds {dict(rp.heralds)} and ports {self.ports}")
+                    return {"done": True}
                 self.cs = cand
                 self.user_P.update(keep)
                 self.circ_history.append((it["circ"], it.get("circ_direct", False)))
@@ -1310,10 +1708,112 @@ class Session:
                 self.pending.add(kind)
                 if kind in ("set-circuit", "exp-set-circuit"):
                     self.flags.add("set-circuit")
+                    if empty:
+                        it["base_m"] = spec["m"]
+                        self.flags.add("cleared-then-set-circuit")
+                if kind in ("add-comp", "add-mapped"):
+                    _, _, moved = route_matrix(mapping, u.shape[0])
+                    self.flags.add("mapped-add" + ("-perm" if moved else ""))
+                    if "dict" in mp:
+                        self.flags.add("mapped-add:dict" + (":port" if any(isinstance(a2, str) for a2, _ in mp["dict"])
+                                                            else ""))
+                    elif "list" in mp:
+                        self.flags.add("mapped-add:list")
+                    if had_post:
+                        self.flags.add("add-next-to-postselection")
+                    if empty:
+                        it["base_m"] = u.shape[0]
+                        self.flags.add("cleared-then-add")
+                    if any(mn_ < h_ < mx_ for h_ in rp.heralds for mn_, mx_ in [(min(mapping), max(mapping))]):
+                        self.flags.add("mapped-add-spans-herald")
                 if it["converted"]:
                     self.flags.add("circuit-change-on-converted")
                 return {"done": True}
             self.run_op(lop, do)
+            if k in ("add_comp", "add_mapped") and "err" in self.outs[-1]:
+                err = self.outs[-1]["err"]
+                self.flags.add("add-refused:" + err)
+                if had_post and err == "AssertionError":
+                    self.flags.add("add-refused-by-postselection")
+                if cand is not None and err in ("UnavailableModeException", "InvalidMappingException"):
+                    # direct oracle: a legal mapping on free modes must not be refused as unavailable / invalid
+                    self.fail("add-legal-mapping-refused",
+                              f"add({real_map!r}, <{spec['m']}-mode circuit>) raised {err} on a processor of "
+                              f"{rp.circuit_size} modes with heralds {dict(rp.heralds)} and ports {self.ports}")
+        elif k == "add_port":
+            from perceval.components import Port
+            from perceval.utils import Encoding
+            if op["mode"] + op["size"] > rp.circuit_size or it["converted"]:
+                return False
+
+            def do():
+                enc = Encoding.DUAL_RAIL if op["size"] == 2 else Encoding.RAW
+                rp.add_port(op["mode"], Port(enc, op["name"]))
+                self.ports[op["name"]] = (op["mode"], op["size"])
+                self.flags.add("port-added")
+                return {"done": True}
+            self.run_op({"op": k, "mode": op["mode"], "name": op["name"], "size": op["size"]}, do)
+        elif k == "set_params":
+            def do():
+                before = dict(rp.parameters)
+                try:
+                    rp.set_parameters({(3 if a2 is None else a2): b2 for a2, b2 in op["d"]})
+                finally:
+                    if dict(rp.parameters) != before:
+                        self.touch_jobs("param")
+                self.flags.add("set-parameters")
+                return {"done": True}
+            # a Python dict: a repeated key keeps its first position and its last value
+            d = {}
+            for a2, b2 in op["d"]:
+                d[a2] = b2
+            self.epoch += 1
+            self.run_op({"op": k, "d": [[a2, b2] for a2, b2 in d.items()]}, do)
+            if "err" in self.outs[-1]:
+                self.flags.add("set-parameters-refused")
+        elif k == "thresholded":
+            def do():
+                before = dict(rp.parameters)
+                import warnings
+                with warnings.catch_warnings():
+                    warnings.simplefilter("ignore")
+                    rp.thresholded_output(op["v"])
+                if dict(rp.parameters) != before:
+                    self.touch_jobs("param")
+                self.flags.add("thresholded-set")
+                return {"done": True}
+            self.epoch += 1
+            self.run_op({"op": k, "v": op["v"]}, do)
+            if "err" in self.outs[-1]:
+                self.flags.add("thresholded-refused")
+        elif k == "clear_all":
+            self.circs.append(np.zeros((0, 0), dtype=complex))
+            sym = len(self.circs) - 1
+
+            def do():
+                try:
+                    if op["new_m"] is None:
+                        rp.clear_input_and_circuit()
+                    else:
+                        rp.clear_input_and_circuit(op["new_m"])
+                finally:
+                    # the reset happens before the `m` setter may refuse the new size
+                    n = rp.circuit_size
+                    self.cs = {"base": ("empty", None), "extra": [], "values": {}, "direct": True, "size": n}
+                    self.conv_perm = list(range(n))
+                    self.ports = {}
+                    self.user_P = {}
+                    self.circ_history = []
+                    u0 = np.eye(n, dtype=complex)
+                    self.circs[sym] = u0
+                    it.update(converted=False, heralds={}, local_heralds={}, input=None, input_fresh=False, post=None,
+                              circ=u0, circ_direct=True, base_m=n)
+                    self.pending.add("clear")
+                    self.flags.add("cleared" + ("" if n else ":no-modes"))
+                return {"done": True}
+            self.run_op({"op": k, "new_m": op["new_m"], "sym": sym}, do)
+            if "err" in self.outs[-1]:
+                self.flags.add("clear-refused-size")
         elif k == "prepare":
             kw = {a: b for a, b in op["kw"]}
 
@@ -1434,7 +1934,7 @@ class Session:
                 # the processor's parameters / the sampler's iterations since, [12] both as they are right now
                 self.jobs.append([job, False, op["method"], list(it["sampler_its"]), it["max_shots"], self.snapshot(),
                                   self.epoch, self.request_made(), list(it["sampler_its_bad"]), False,
-                                  len(self.lean_ops), set(), copy.deepcopy(dict(rp.parameters)), self.sampler])
+                                  len(self.lean_ops), set(), copy.deepcopy(dict(rp.parameters)), self.sampler, [0]])
                 return {"done": True}
             self.run_op(lop, do)
         elif k == "execute":
@@ -1445,11 +1945,13 @@ class Session:
             kw = {a: b for a, b in op["kw"]}
             net = op.get("net", "ok")
             how = op.get("how", "async")
-            h = self.h
+            h = self.net
+            wire = lean_wire(net, len(h.log))
 
             def do():
-                from perceval.serialization import deserialize
+                from perceval.serialization import deserialize, serialize
                 n0, a0 = len(h.log), h.attempts
+                p0 = len(h.posts)
                 h.script = [net]      # what happens to the creation request; anything the client emits after it is answered
                 err = None
                 try:
@@ -1464,6 +1966,7 @@ class Session:
                 finally:
                     h.script = []
                 got = h.log[n0:]
+                posted = h.posts[p0:]
                 n_att = h.attempts - a0
                 self.n_sent = len(h.log)
                 # direct oracle: ONE execution creates at most one remote job, exactly one when it returns normally
@@ -1475,9 +1978,39 @@ class Session:
                 elif err is None and len(got) != 1:
                     self.fail("create-job-count", f"the execution ({how}) returned normally but the platform received "
                                                   f"{len(got)} job-creation requests")
+                # direct oracle: ONE job object never makes the platform hold two remote jobs (a creation request whose
+                # answer was lost or unusable is not emitted again by a later execution of the same job)
+                rec[14][0] += len(got)
+                if rec[14][0] > 1 and len(got) == 1:
+                    self.fail("job-created-twice",
+                              f"the platform took a creation request of this job in an earlier execution (the call had "
+                              f"raised); executing the job again ({how}, network: {net}) made it take another one: "
+                              f"{rec[14][0]} remote jobs exist for one job")
+                # direct oracle: what is POSTed is the job's own request, byte for byte after canonical JSON
+                req_data = getattr(rec[0], "_request_data", None)
+                for r in posted:
+                    if req_data is None:
+                        self.flags.add("request-data-unavailable")
+                        break
+                    try:
+                        # through JSON once first: integer dictionary keys (heralds) become strings before sorting
+                        want = json.dumps(json.loads(json.dumps(serialize(req_data))), sort_keys=True)
+                        have = json.dumps(json.loads(r["body"]), sort_keys=True)
+                    except Exception:
+                        continue                      # not JSON: reported by check_request
+                    if want != have:
+                        self.fail("post-body-not-the-request",
+                                  f"the JSON document POSTed to {r['url']} is not the job's request: posted "
+                                  f"{have[:300]} …, the job holds {want[:300]} …")
+                    else:
+                        self.flags.add("post-body-compared")
                 sents = []
-                for i, raw in enumerate(got):
-                    sent = deserialize(raw)
+                for i, r in enumerate(posted):
+                    try:
+                        sent = deserialize(json.loads(r["body"]))
+                        sent["payload"]
+                    except Exception:
+                        continue
                     sents.append(sent)
                     self.check_payload(sent["payload"], None, set(), False, False, rec)
                     if i == 0:
@@ -1498,23 +2031,23 @@ class Session:
                     rec[1] = True
                     if how != "async":
                         self.flags.add("execute-sync")
-                    return {"sent": out_sent, "attempts": n_att}
+                    return {"sent": out_sent, "attempts": n_att, "id": rec[0].id}
                 if rec[9] and type(err).__name__ == "AssertionError":
                     self.flags.add("execute-refused-after-failed-transport")
-                if any(err is x for x in h.raised):
-                    # the exception of the (fake) network reaches the user as it is
-                    rec[9] = True
-                    self.flags.add("execute-answer-lost" if net == "lost" else "execute-not-delivered")
-                    out = {"err": "TransportError", "msg": f"{type(err).__name__}: {err}"[:160], "attempts": n_att}
-                    if out_sent is not None:
-                        out["received"] = out_sent
-                    return out
                 out = {"err": type(err).__name__, "msg": str(err)[:160], "attempts": n_att}
-                if out_sent is not None:
-                    out["received"] = out_sent
+                if posted:
+                    # `create_job` emitted its request and raised: the exception reaches the user as it is
+                    rec[9] = True
+                    self.flags.add("net:" + net)
+                    self.flags.add("execute-answer-lost" if got else "execute-not-delivered")
+                    if any(err is x for x in h.raised):
+                        self.flags.add("transport-exception-reaches-user")
+                    out["posted"] = out_sent
+                    if got:
+                        out["received"] = out_sent
                 return out
             self.run_op({"op": k, "job": op["job"], "args": op["args"], "kw": [[a, b] for a, b in kw.items()],
-                         "net": LEAN_NET[net]}, do)
+                         "wire": wire}, do)
         else:
             raise ValueError(k)
         return True
@@ -1525,7 +2058,7 @@ class Session:
         it = self.intent
         if it["converted"]:
             return self.local.m, sum(it["local_heralds"].values())
-        return self.scen["start"]["m"] - len(it["heralds"]), sum(it["heralds"].values())
+        return it.get("base_m", self.scen["start"]["m"]) - len(it["heralds"]), sum(it["heralds"].values())
 
     def user_param_names(self):
         """names of the variable parameters of the user's circuit (from the scenario's specs)"""
@@ -1833,7 +2366,8 @@ class Session:
     def lean_request(self):
         pf = self.scen["pf"]
         return {"pf": {k: pf.get(k) for k in ("max_modes", "min_modes", "max_photons", "min_photons")} | {
-            "commands": pf["commands"]}, "aliased": False, "ops": self.lean_ops}
+            "commands": pf["commands"]}, "aliased": False, "handler": self.lean_handler(), "thr_only": bool(pf.get("threshold_only")),
+            "ops": self.lean_ops}
 
 
 # ------------------------------------------------------------------------------------------------
@@ -1955,6 +2489,49 @@ def matrix_differs(ses: Session, rep, at, pl, where):
     return None
 
 
+def http_differs(ses: Session, i, model):
+    """the platform-details / job-creation requests op `i` made the client emit against the model's (`Model/C16Rpc`):
+    number, verb, URL, Authorization header, time-out, proxies, platform named by a posted document -> None or
+    (field, text)"""
+    real = ses.http[i] if i < len(ses.http) else []
+    if model is None:
+        return ("missing", "the model's reply has no HTTP requests for this op")
+    if ses.lean_ops[i]["op"] not in ("new_remote", "convert", "execute") and not real and not model:
+        return None
+    if len(real) != len(model):
+        return ("count", f"the client emitted {[(r['verb'], r['url']) for r in real]}, model "
+                         f"{[(m['verb'], m['url']) for m in model]}")
+    pid = ses.lean_handler()["proxies"]
+    for r, m in zip(real, model):
+        if r["verb"] != m["verb"]:
+            return ("verb", f"{r['verb']} {r['url']} emitted, model {m['verb']}")
+        if r["url"] != m["url"]:
+            return ("url", f"{r['verb']} {r['url']} emitted, model {m['url']}")
+        if r["headers"].get("Authorization") != m["auth"]:
+            return ("auth", f"Authorization {r['headers'].get('Authorization')!r}, model {m['auth']!r}")
+        if r["timeout"] != m["timeout"]:
+            return ("timeout", f"time-out {r['timeout']!r}, model {m['timeout']!r}")
+        if m["proxies"] != pid:
+            return ("proxies", f"model proxies {m['proxies']!r} for handler proxies {pid!r}")
+        if m["verb"] == "POST":
+            try:
+                name = json.loads(r["body"]).get("platform_name")
+            except Exception:
+                name = None
+            if name != m["platform"]:
+                return ("platform", f"posted platform_name {name!r}, model {m['platform']!r}")
+            ses.flags.add("http:post")
+        else:
+            ses.flags.add("http:get")
+            if r["url"] != r["url"].strip() or " " in r["url"]:
+                return ("url", f"platform name not quoted in {r['url']!r}")
+            if any(ord(ch) > 127 or ch in " /" for ch in ses.hs["name"]):
+                ses.flags.add("http:get-quoted-name")
+        if r["url"].count("//") > 1:
+            ses.flags.add("http:double-slash")
+    return None
+
+
 def compare(ses: Session, rep):
     """-> list of (kind, signature, what). Direct-oracle failures come first."""
     res = [("violation", sig, what) for sig, what in ses.oracle_failures]
@@ -1975,14 +2552,20 @@ def compare(ses: Session, rep):
         mo, ms = outs[i], states[i]
         where = f"op {i} {lop['op']}"
         if lop["op"] == "execute" and "attempts" in ro:
-            # the model calls `create_job` once per execution that passes the client-side checks, never again
-            want = 1 if ("sent" in mo or mo.get("err") == "TransportError") else 0
+            # the model emits ONE job-creation POST per execution that passes the client-side checks, never another
+            want = 1 if ("sent" in mo or "posted" in mo) else 0
             if ro["attempts"] != want:
                 if not any(k == "violation" for k, *_ in res):
                     res.append(("broken", "model-vs-code:execute:attempts",
-                                f"{where}: implementation called create_job {ro['attempts']} times for one execution "
-                                f"(network: {lop['net']}), model {want}"))
+                                f"{where}: implementation emitted {ro['attempts']} job-creation requests for one "
+                                f"execution (transport: {lop['wire']}), model {want}"))
                 return res
+        # the HTTP requests the call emitted: platform-details GETs and job-creation POSTs, field by field
+        why = http_differs(ses, i, (rep.get("http") or [])[i] if i < len(rep.get("http") or []) else None)
+        if why is not None:
+            if not any(k == "violation" for k, *_ in res):
+                res.append(("broken", "model-vs-code:http:" + why[0], f"{where}: {why[1]}"))
+            return res
         if "err" in ro or "err" in mo:
             if ro.get("err") != mo.get("err"):
                 known = any(k == "violation" for k, *_ in res)
@@ -1991,18 +2574,30 @@ def compare(ses: Session, rep):
                                 f"{where}: implementation {ro.get('err', 'ok')} ({ro.get('msg', '')}) vs model "
                                 f"{mo.get('err', 'ok')}"))
                 return res
-            if ("received" in ro) != ("received" in mo):
+            if mo.get("msg") is not None and ro.get("msg") != mo["msg"][:160]:
+                if not any(k == "violation" for k, *_ in res):
+                    res.append(("broken", "model-vs-code:execute:message",
+                                f"{where}: {ro['err']} raised with message {ro.get('msg')!r}, model {mo['msg']!r}"))
+                return res
+            if ("posted" in ro) != ("posted" in mo) or ("received" in ro) != bool(mo.get("accepted")):
                 if not any(k == "violation" for k, *_ in res):
                     res.append(("broken", "model-vs-code:execute:received",
-                                f"{where}: platform received a request: implementation {'received' in ro}, model "
-                                f"{'received' in mo}"))
+                                f"{where}: a request was emitted / taken by the platform: implementation "
+                                f"{'posted' in ro} / {'received' in ro}, model {'posted' in mo} / "
+                                f"{bool(mo.get('accepted'))}"))
                 return res
-            if "received" in ro:
-                r = mo["received"]
-                if not matrix_check(ses.jobs[lop["job"]][10], ro["received"]["payload"], where, "job"):
+            if "posted" in ro:
+                if ro["posted"] is None:
+                    if not any(k == "violation" for k, *_ in res):
+                        res.append(("broken", "model-vs-code:execute:unreadable", f"{where}: the request emitted "
+                                                                                  f"cannot be deserialised"))
                     return res
-                bad = diff_payload(ses, ro["received"]["payload"], r["payload"], r["iterator"])
-                if ro["received"]["job_name"] != r["job_name"]:
+                ses.flags.add("posted-compared" + ("" if "received" in ro else ":not-taken"))
+                r = mo["posted"]
+                if not matrix_check(ses.jobs[lop["job"]][10], ro["posted"]["payload"], where, "job"):
+                    return res
+                bad = diff_payload(ses, ro["posted"]["payload"], r["payload"], r["iterator"])
+                if ro["posted"]["job_name"] != r["job_name"]:
                     bad.append("job_name")
                 if bad:
                     if not any(k == "violation" for k, *_ in res):
@@ -2031,6 +2626,8 @@ def compare(ses: Session, rep):
             bad = diff_payload(ses, ro["sent"]["payload"], s["payload"], s["iterator"])
             if ro["sent"]["job_name"] != s["job_name"]:
                 bad.append("job_name")
+            if ro.get("id") != mo.get("id"):
+                bad.append("job_id")
             if bad:
                 if not any(k == "violation" for k, *_ in res):
                     res.append(("broken", "model-vs-code:execute:" + ",".join(bad),
@@ -2042,8 +2639,11 @@ def compare(ses: Session, rep):
                 res.append(("broken", "model-vs-code:state:" + ",".join(bad),
                             f"{where}: processor state differs on {bad}: implementation {rs} vs model {ms}"))
             return res
-    if rep["log"] != len(ses.h.log):
-        res.append(("broken", "model-vs-code:log", f"handler log {len(ses.h.log)} vs model {rep['log']}"))
+    if rep["log"] != len(ses.net.log):
+        res.append(("broken", "model-vs-code:log", f"platform log {len(ses.net.log)} vs model {rep['log']}"))
+    if rep.get("posts") != len(ses.net.posts):
+        res.append(("broken", "model-vs-code:posts", f"job-creation requests emitted {len(ses.net.posts)} vs model "
+                                                     f"{rep.get('posts')}"))
     return res
 
 
@@ -2060,7 +2660,7 @@ def sig_of(scen, ses):
     pf = scen["pf"]
     return (st["kind"], st.get("base"), st.get("m"), tuple(tuple(h) for h in (ses.states[0] or {}).get("heralds", [])),
             tuple(pf.get(k) for k in ("max_modes", "min_modes", "max_photons", "min_photons")), tuple(pf["commands"]),
-            tuple((o["op"], o.get("method"), len(o.get("args", [])), o.get("n"), tuple(o.get("s", [])), o.get("net"))
+            tuple((o["op"], o.get("method"), len(o.get("args", [])), o.get("n"), tuple(o.get("s", [])), json.dumps(o.get("wire")))
                   for o in ses.lean_ops))
 
 
@@ -2087,9 +2687,9 @@ def account(chk, scen, ses, rep, corpus=False):
                 if lop["op"] == "execute":
                     if ro["err"] in ("RuntimeError", "IndexError"):
                         chk.branch("handle-params-rejected")
-                    elif ro["err"] == "TypeError":
+                    elif ro["err"] == "TypeError" and "posted" not in ro:
                         chk.branch("execute-typeerror")
-                    if "received" in ro:
+                    if "posted" in ro:
                         n_payload += 1
                 if lop["op"] == "job" and ro["err"] == "RuntimeError":
                     chk.branch("primitive-none-or-constraints")
@@ -2190,8 +2790,13 @@ def run(chk: core.Check):
                 "add of a component; prepare_job_payload with kwargs, Sampler, iterations incl. ones that must be refused (input "
                 "state breaking the photon window / the size, unknown or non-numeric circuit parameter) alone and next to "
                 "every other key in either order, job creation for 3 methods, execute_async / execute_sync / __call__ with "
-                "positional/keyword arguments while the fake network answers, loses the answer after delivery, is "
-                "unreachable, times out on connection or refuses; jobs executed after the user changed the filter / "
+                "positional/keyword arguments while the transport under the real RPCHandler (handler name incl. characters "
+                "to quote, base URL with / without trailing slash or path prefix, token incl. None and '', proxies, "
+                "time-out) answers 200 with a job id, loses the answer after delivery, is unreachable, times out on "
+                "connection, answers 400 / 401 / 500 / 502 / 422 with or without a JSON error, answers 201, or answers 200 "
+                "with a body that has no job_id / is not JSON / is a list; every emitted HTTP request compared with the "
+                "model's (count, verb, URL, Authorization, time-out, proxies, platform_name) and the posted document with "
+                "the job's request after canonical JSON; jobs executed after the user changed the filter / "
                 "parameters / iterations or created other jobs; an input state left behind by a later add_herald; the "
                 "circuit of every payload compared with the exact matrix of the model's component list); distinct = "
                 "distinct (start, heralds, constraints, commands, op "
@@ -2215,9 +2820,14 @@ def run(chk: core.Check):
         "that it is transmitted as stored; acceptance / refusal by the photon window is compared with the model",
         "a job is executed at most once after a successful send (double execute_async is C17's finding); a job whose "
         "creation request failed on the network IS executed again (must be refused, nothing re-sent)",
-        "the network is a scripted fake at the rpc_handler.create_job level (real requests exception classes); every "
-        "request that reaches the fake platform counts as a remote job, answered or not; a retry after a request that "
-        "was NOT delivered is reported as a model/code difference only, not as a violation",
+        "the REAL RPCHandler runs (injected by the user or built by RemoteProcessor from name / token / url / "
+        "proxies) over a scripted transport installed at requests.adapters.HTTPAdapter.send (real requests sessions, "
+        "request preparation, JSON encoding and exception classes; no redirects, no environment proxies / netrc): "
+        "every HTTP request the client emits is seen with its method, URL, headers, body bytes, time-out and proxies. "
+        "A job-creation POST answered with a 2xx status or whose answer is never read counts as a remote job; a "
+        "second POST after one that was NOT taken by the platform is reported as a model/code difference only, not as "
+        "a violation. The job's own request is read from RemoteJob._request_data for the byte comparison (skipped and "
+        "counted if that attribute does not exist)",
         "an iteration is judged (size, photon window with herald photons, parameter names/values) against the user's "
         "processor as it is when the iteration is added — a later add_herald / set_circuit is not re-judged",
         "add_herald only on existing modes, at least one mode of interest kept; BasicState inputs only",
@@ -2260,7 +2870,12 @@ def run(chk: core.Check):
                              "stale-input-sent", "stale-input-mismatch",
                              # the user changes the parameters / the iterations between job creation and execution
                              "sent-after-change", "sent-after:filter", "sent-after:param",
-                             "sent-after:clear_params", "sent-after:add_iters", "sent-after:clear_iters"]
+                             "sent-after:clear_params", "sent-after:add_iters", "sent-after:clear_iters",
+                             # the HTTP layer: the real RPCHandler over a scripted transport
+                             "handler-injected", "handler-built-by-processor", "handler-timeout-set",
+                             "http:get", "http:post", "http:get-quoted-name", "http:double-slash",
+                             "post-checked", "post-body-compared", "posted-compared", "posted-compared:not-taken",
+                             "transport-exception-reaches-user"] + ["net:" + k for k in NET_FAILURES]
     chk.lean = core.LeanDriver("C16")
     for scen in load_corpus():
         handle(chk, scen, corpus=True)
